@@ -198,6 +198,9 @@ def cc_flags(g, mode, wdir, repo):
     fl += STD_INCLUDES
     if wdir and mode == 'proof':
         fl.append('-I' + wdir)
+        for unit in g['weave']:
+            # a woven copy lives elsewhere: keep its original directory on the search path for its own "..." includes
+            fl.append('-iquote' + os.path.dirname(os.path.join(repo, unit)))
     fl += repo_includes(repo)
     return fl
 
